@@ -36,6 +36,8 @@ def nontrivial_key(case, info):
 
 def case_class(case):
     c = case["container"]
+    if c == "LIST-sperm" and (len(case["sd"]) > 1 or case["kinds"][case["sd"][0]] == "multi"):
+        c += "|stacked-samples"
     if case.get("extra_coord") and c != "DS-diff":
         c += "|aux"
     return c
